@@ -396,6 +396,51 @@ func c09Forget(p *core.Prog, r *core.Report) {
 		// timer obtained from the pool per item
 		r.Check(len(core.CallsIn(f, "relayTimerPool.Get")) == 1, "C09-R4", fname(f), "one timer per item", p.Pos(f.Pos()), "timeouts.Get()", "item without its own timer")
 	}
+	// an id that is still in the table (live or tombstone) is never admitted
+	// again: admission overwrites the entry, and the tombstone's pending
+	// deletion (time.AfterFunc in Entomb, keyed by id) would then delete the
+	// new call's item.
+	if f := mustFunc(p, r, "", "Relayer", "getDestination"); f != nil {
+		var get ssa.CallInstruction
+		for _, c := range core.CallsIn(f, "relayItems.Get") {
+			if get == nil {
+				get = c
+			}
+		}
+		ok, how := false, "no lookup of the caller's id before admission"
+		if get != nil {
+			var okV ssa.Value
+			for _, ref := range *get.Value().Referrers() {
+				if ex, isEx := ref.(*ssa.Extract); isEx && ex.Index == 2 {
+					okV = ex
+				}
+			}
+			idOK := false
+			if fa := core.LoadedField(core.CallArgs(get)[1]); fa != nil && fa.Name() == "ID" {
+				idOK = true
+			}
+			if okV != nil && idOK {
+				res := core.ReachAvoiding(f, get.(ssa.Instruction), func(i ssa.Instruction) bool {
+					ret, isRet := i.(*ssa.Return)
+					if !isRet || len(ret.Results) != 3 {
+						return false
+					}
+					k, isK := ret.Results[1].(*ssa.Const)
+					return !isK || k.Value == nil || k.Value.String() != "false"
+				}, nil, func(from, to *ssa.BasicBlock) bool {
+					if ifi, isIf := from.Instrs[len(from.Instrs)-1].(*ssa.If); isIf && ifi.Cond == okV {
+						return to == from.Succs[1] && from.Succs[0] != from.Succs[1]
+					}
+					return false
+				})
+				ok = !res.Found
+				how = "the lookup found an entry for the id (live or tombstone) and the call can still be admitted: " + p.TrailString(res)
+			} else {
+				how = "the duplicate lookup is not on the frame's id / its found-result is not tested"
+			}
+		}
+		r.Check(ok, "C09-R4", fname(f), "an id present in the table (live or tombstone) is never admitted", p.Pos(f.Pos()), "every path on which the lookup of Header.ID succeeds returns not-admitted", how)
+	}
 	for _, cs := range p.CallsTo("relayTimer.Release") {
 		r.Check(cs.Fn.Name() == "Delete", "C09-R4", fname(cs.Fn), "timer released only by relayItems.Delete", p.Pos(cs.Call.Pos()), "single release point, after the item left the table", "a relay timer is released while its item may still be used")
 	}
